@@ -209,4 +209,22 @@ theorem newCommitTs_tie (t : Txn) (recent : List Commit) (mark next last : Nat)
     simp only [Bool.false_eq_true, ↓reduceIte, GenTxn.doneRead, hl, List.map_append, List.map_cons, List.map_nil,
       OracleTie.ctOf, wkeys, List.nil_append, List.cons_append]
 
+
+/-! ### oracle.readTs (Begin) and Txn.Discard -/
+
+/-- `Begin`: the snapshot is `nextTs - 1`, the read mark is begun under the oracle lock, and the call returns only after
+    it has waited for the commit mark to reach the snapshot (every commit at or below it is applied) -/
+theorem readTs_table (next : Nat) (waitFails : Bool) :
+    GenTxn.readTs next waitFails [] =
+      if waitFails then none
+      else some (next - 1, ["Lock", "readMark.Begin readTs", "Unlock", "commitMark.WaitForMark readTs"]) := by
+  unfold GenTxn.readTs
+  cases waitFails <;> simp
+
+/-- `Discard` releases the read mark once and is idempotent -/
+theorem discard_table (disc : Bool) :
+    GenTxn.discard disc [] = if disc then (true, []) else (true, ["oracle.doneRead"]) := by
+  unfold GenTxn.discard
+  cases disc <;> simp
+
 end TxnTie
